@@ -45,7 +45,7 @@ def handleLitMatch : Toks → Option String :=
 
 /-- the attributes of the zoo as written in `harness/src/zoo.rs`: (world, keyword, index of the attribute) -/
 def zooTable : List String :=
-  ["w1 given 0", "w1 given 1", "w1 given 14", "w1 given 4", "w1 given 7", "w1 given 8", "w1 then 10", "w1 then 13", "w1 then 16", "w1 then 3", "w1 then 6", "w1 when 11", "w1 when 12", "w1 when 15", "w1 when 17", "w1 when 2", "w1 when 5", "w1 when 9", "w2 given 18"]
+  ["w1 given 0", "w1 given 1", "w1 given 14", "w1 given 18", "w1 given 4", "w1 given 7", "w1 given 8", "w1 then 10", "w1 then 13", "w1 then 16", "w1 then 3", "w1 then 6", "w1 when 11", "w1 when 12", "w1 when 15", "w1 when 17", "w1 when 2", "w1 when 5", "w1 when 9", "w2 given 19"]
 
 def handleZooReg : Toks → Option String := fun _ => some (showList id zooTable)
 
